@@ -138,6 +138,11 @@ theorem nodupStep_genPair (s : State) (h m : Nat) (p v : Template) (o : RV) : No
   unfold stepGenPair
   repeat' (first | exact nodupStep_same rfl | exact nodupStep_genPairFinish _ _ _ _ _ _ _ _ _ _ _ _ | apply nodupStep_ite | split | extract_lets)
 
+theorem Adds.nodup {s : State} {r : State × Resp} (h : Adds s r) : NodupStep s r.1 := by
+  rcases h with h | ⟨slot, hh, t, p, a, h⟩
+  · exact nodupStep_same h.1
+  · rw [h]; exact nodupStep_addObject _ _ _ _ _ _
+
 theorem nodupStep_stepOp (s : State) (c : OpCall) : NodupStep s (stepOp s c).1 := by
   cases c <;> simp only [stepOp]
   case cfgMechs => exact nodupStep_same rfl
@@ -158,6 +163,9 @@ theorem nodupStep_stepOp (s : State) (c : OpCall) : NodupStep s (stepOp s c).1 :
   case verifyFinal => exact nodupStep_same (onlyHandles_verify ..).1
   case genKey => exact nodupStep_genKey _ _ _ _ _
   case genPair => exact nodupStep_genPair _ _ _ _ _ _
+  case wrap => rw [adds_wrap]; exact nodupStep_same rfl
+  case unwrap => exact (adds_unwrap _ _ _ _ _ _ _ _).nodup
+  case derive => exact (adds_derive _ _ _ _ _ _ _).nodup
 
 theorem nodupStep_restart (s : State) : NodupStep s (stepRestart s).1 := by
   unfold stepRestart stepFinalize
